@@ -73,14 +73,37 @@ UNREACHABLE = [
 
 
 def anchored_functions():
-    import MIP.geom.parsegeom as pg
-    from MIP.geom import semantics
-    from MIP.geom.main import extract_surfaces_list
-    from MIP.mip import cellcard
-    from t4_geom_convert.Kernel.Volume.CellConversion import CellConversion
-    sem = semantics.GeomSemantics
-    return [pg.normalize, pg.get_ast, sem.surface, sem.complcell, sem.operand,
-            sem.isect, sem.union, semantics.GeomExpression.inverse,
-            semantics.Surface.inverse, semantics.Surface.__init__,
-            semantics.Surface.__neg__, cellcard.split,
-            CellConversion.pot_complement, extract_surfaces_list]
+    '''(functions found, names not present).  Names are resolved tolerantly:
+    a helper a rewrite renamed or removed is only reported.'''
+    import importlib
+    wanted = [
+        ('MIP.geom.parsegeom', ['normalize', 'get_ast']),
+        ('MIP.geom.semantics', ['GeomSemantics.surface', 'GeomSemantics.complcell',
+                                'GeomSemantics.operand', 'GeomSemantics.isect',
+                                'GeomSemantics.union', 'GeomExpression.inverse',
+                                'Surface.inverse', 'Surface.__init__',
+                                'Surface.__neg__']),
+        ('MIP.geom.main', ['extract_surfaces_list']),
+        ('MIP.mip.cellcard', ['split']),
+        ('t4_geom_convert.Kernel.Volume.CellConversion',
+         ['CellConversion.pot_complement']),
+    ]
+    funcs, missing = [], []
+    for modname, names in wanted:
+        try:
+            mod = importlib.import_module(modname)
+        except Exception:               # noqa: BLE001
+            missing.extend(f'{modname}.{n}' for n in names)
+            continue
+        for name in names:
+            obj = mod
+            for part in name.split('.'):
+                obj = getattr(obj, part, None)
+                if obj is None:
+                    break
+            if obj is None or not hasattr(getattr(obj, '__func__', obj),
+                                          '__code__'):
+                missing.append(f'{modname}.{name}')
+            else:
+                funcs.append(obj)
+    return funcs, missing
